@@ -54,6 +54,25 @@ def _g_chunk(recs):
     return out, strips, stats
 
 
+def _blk_chunk(raws):
+    """block string tokens: strip re-prints them minimally; the value must survive (validated by TLC: StripOK)"""
+    from graphql.utilities import strip_ignored_characters
+    from graphql import GraphQLSyntaxError
+    out, strips = [], []
+    for raw in raws:
+        text = '"""' + raw.replace('"""', '\\"""') + '"""'
+        try:
+            st = strip_ignored_characters(text)
+            if strip_ignored_characters(st) != st:
+                out.append(("strip-not-idempotent", lexbind.cps(text), {"once": st}))
+            strips.append({"s": lexbind.cps(text), "t": lexbind.cps(st)})
+        except GraphQLSyntaxError:
+            pass        # not a complete token (e.g. the body ends in a quote): Lexical.tla decides the same via StripOK's precondition
+        except Exception as e:  # noqa: BLE001
+            out.append(("strip-raises", lexbind.cps(text), type(e).__name__))
+    return out, strips
+
+
 STRIPV = r'''---- MODULE StripV ----
 EXTENDS Lexical, IOUtils
 Cases == JsonDeserialize(IOEnv.CASES)
@@ -188,11 +207,22 @@ def run(tier: str, rd):
             ev.case(rec["s"], nontrivial=rec["r"]["ok"] and len(rec["r"]["toks"]) >= 1, key=alpha + str(rec["s"]))
         ev.traces += len(recs)
         ev.sample({"alphabet": alpha, "s": recs[len(recs) // 3]["s"], "spec": recs[len(recs) // 3]["r"]})
+    # block string tokens over {a, SP, LF, quote, backslash, TAB}: every raw body up to the length bound
+    import itertools
+    blen = 7 if tier == "quick" else 9
+    raws = ["".join(t) for k in range(blen + 1) for t in itertools.product('a \n"', repeat=k)]
+    raws += ["".join(t) for k in range(5 if tier == "quick" else 6) for t in itertools.product('a \n"\\\t\r', repeat=k)]
+    blkstrips = []
+    for out, strips in pmap(_blk_chunk, raws, chunk=4000):
+        blkstrips += strips
+        for cls, cp, detail in out:
+            vd.violation(cls, {"code_points": cp, "text": lexbind.from_cps(cp)}, detail)
     # strip outputs of the enumerated lexable strings, validated by TLC
     if tier == "quick":
         rng0 = random.Random(seed())
         rng0.shuffle(allstrips)
         allstrips = allstrips[:30000]
+    allstrips = blkstrips + allstrips
     if allstrips:
         p = common.write_cases(rd, "strips.json", allstrips)
         r = run_tlc(rd, "StripV", common.v_cfg(), extra_modules={"StripV": STRIPV}, env={"CASES": str(p)}, timeout=3000, heap="12g")
@@ -240,7 +270,7 @@ def run(tier: str, rd):
         ev.case(c["s"], nontrivial=c["ok"] and len(c["toks"]) > 3)
     ev.sample({"v_document": lexbind.from_cps(vrecs[0]["s"])[:300], "ok": vrecs[0]["ok"], "count": vrecs[0]["count"]})
     ev.extra.update({"enumerated_agree": agree, "enumerated_lexable": lexable, "strip_outputs_validated": len(allstrips),
-                     "filler_insertions_parsed": n_ins, "token_limit_checks": n_lim, "v_documents": len(vrecs),
+                     "block_string_tokens_stripped": len(blkstrips), "filler_insertions_parsed": n_ins, "token_limit_checks": n_lim, "v_documents": len(vrecs),
                      "v_documents_lexing": sum(1 for c in vrecs if c["ok"])})
     ev.rule = (f"G: all strings of length <= {maxlen} over each of 3 sixteen-symbol alphabets (numbers/names, strings, layout), exhaustive; "
                "non-trivial = lexes to >= 1 token. V: seeded grammar-generated documents with random ignored material and 2 mutants each; "
